@@ -31,7 +31,7 @@ const (
 )
 
 type xOp struct {
-	Kind    string // get | update | apply | done | timers
+	Kind    string // get | update | apply | jobinfo | done | timers
 	Hash    uint64
 	Jobs    map[string][]uint64 // update: job -> hashes
 	Cfg     []string            // apply
@@ -170,6 +170,8 @@ func exploreRun(in interface{}) (string, interface{}, map[string]int) {
 			e.UpdateTargets(m)
 		case "apply":
 			_ = e.ApplyConfig(xJobCfg(op.Cfg))
+		case "jobinfo": // the scrape manager is reloaded alone: from now on it has a client for exactly these jobs
+			_ = sm.ApplyConfig(xJobCfg(op.Cfg))
 		case "done":
 			w.mu.Lock()
 			for i, b := range w.blocked {
@@ -218,6 +220,14 @@ func exploreRun(in interface{}) (string, interface{}, map[string]int) {
 				js = append(js, cN(id))
 			}
 			t = "XApplyConfig " + cList(js)
+		case "jobinfo":
+			var js []string
+			for _, j := range op.Cfg {
+				var id uint64
+				fmt.Sscanf(j, "job%d", &id)
+				js = append(js, cN(id))
+			}
+			t = "XJobInfo " + cList(js)
 		case "done":
 			if op.OK {
 				t = fmt.Sprintf("XDone %s (POk %s %s)", cN(op.Hash), cZ(op.Scraped), cZ(op.Total))
@@ -310,6 +320,20 @@ func exploreGen(r *rand.Rand, idx int, thorough bool) interface{} {
 			}
 			continue
 		}
+		if i > 0 && r.Intn(16) == 0 { // the scrape manager loses (or gets back) the client of one job
+			have := []string{}
+			lost := cfg[r.Intn(len(cfg))]
+			for _, j := range cfg {
+				if j != lost || r.Intn(3) == 0 {
+					have = append(have, j)
+				}
+			}
+			c.Ops = append(c.Ops, xOp{Kind: "jobinfo", Cfg: have})
+			if r.Intn(2) == 0 {
+				timers++
+			}
+			continue
+		}
 		switch k := r.Intn(12); {
 		case k < 3 || i == 0: // full discovery update
 			jobs := map[string][]uint64{}
@@ -369,6 +393,8 @@ func exploreGen(r *rand.Rand, idx int, thorough bool) interface{} {
 		}
 	}
 	_ = inflight
+	// the clients come back before the end
+	c.Ops = append(c.Ops, xOp{Kind: "jobinfo", Cfg: []string{"job0", "job1", "job2"}})
 	// finally ask for everything once more, after letting pending timers fire
 	if timers > 0 && waits < 3 {
 		c.Ops = append(c.Ops, xOp{Kind: "timers"})
